@@ -191,7 +191,12 @@ class SmtpRelayClient(RelayPoolClient):
             if not rcptto.is_error():
                 break
         else:
-            raise SmtpRelayError.factory(rcpttos[0])
+            errors = [SmtpRelayError.factory(rcptto) for rcptto in rcpttos]
+            if any(type(error) is not type(errors[0]) for error in errors):
+                # Recipients were rejected for different classes of reasons,
+                # each one needs to see its own error.
+                errors[0].rcpt_errors = errors
+            raise errors[0]
         if data.is_error():
             raise SmtpRelayError.factory(data)
 
@@ -240,6 +245,13 @@ class SmtpRelayClient(RelayPoolClient):
             if rcpt_reply.is_error():
                 rcpt_results[rcpt] = SmtpRelayError.factory(rcpt_reply)
 
+    def _set_failure(self, result, envelope, exc):
+        rcpt_errors = getattr(exc, 'rcpt_errors', None)
+        if rcpt_errors:
+            result.set(dict(zip(envelope.recipients, rcpt_errors)))
+        else:
+            result.set_exception(exc)
+
     def _deliver(self, result, envelope):
         rcpt_results = dict.fromkeys(envelope.recipients)
         try:
@@ -247,7 +259,7 @@ class SmtpRelayClient(RelayPoolClient):
             self._send_envelope(rcpt_results, envelope)
             msg_result = self._send_message_data(envelope)
         except SmtpRelayError as e:
-            result.set_exception(e)
+            self._set_failure(result, envelope, e)
             self._rset()
         else:
             for key, value in rcpt_results.items():
